@@ -73,7 +73,7 @@ pub const EMPTY_ID: u64 = ONE_BYTE_BASE + 256;
 /// tile whose stored bytes are NOT a fixed point of decode + re-encode: layer `L` (with the id feature)
 /// is followed by layer `K` (one feature without an id) – re-encoding sorts the layers by name
 pub fn two_layer(id: u64) -> bool {
-	id % 43 == 7 && id % 1009 != 0 && id % 37 != 0 && !matches!(id % 41, 1 | 2 | 3) && id % 47 != 11
+	id % 43 == 7 && size_target(id).is_none() && id % 37 != 0 && id % 47 != 11
 }
 /// "decompression bomb"-like but legitimate tile: ~500 KB of one repeated character (brotli
 /// compresses it by far more than 1032:1)
@@ -82,7 +82,19 @@ pub fn repetitive(id: u64) -> bool {
 }
 
 pub fn size_target(id: u64) -> Option<usize> {
-	if id % 1009 == 0 || id % 37 == 0 || repetitive(id) {
+	// 1 MiB tiles: exactly 2^20 bytes (id 1009 itself: 2^20 - 1), so that 64 of them end exactly on /
+	// one byte before the 64 MiB chunk limit of the versatiles reader
+	if id % 1009 == 0 {
+		return Some(if id == 1009 { (1 << 20) - 1 } else { 1 << 20 });
+	}
+	// the 32 KiB chunk gap of the versatiles reader: a skipped tile of exactly gap-1 / gap / gap+1 bytes
+	match id % 53 {
+		1 if id % 37 != 0 && !repetitive(id) => return Some(32767),
+		2 if id % 37 != 0 && !repetitive(id) => return Some(32768),
+		3 if id % 37 != 0 && !repetitive(id) => return Some(32769),
+		_ => {}
+	}
+	if id % 37 == 0 || repetitive(id) {
 		return None;
 	}
 	match id % 41 {
@@ -101,7 +113,7 @@ pub fn pad_len(id: u64) -> usize {
 		if let Some(p) = MEMO.with(|m| m.borrow().get(&id).copied()) {
 			return p;
 		}
-		let mut pad = 900usize;
+		let mut pad = t.saturating_sub(100).max(1);
 		// exact fix-up (the loop above converges in one step unless a varint length changes)
 		let mut l = vt_with_pad(&[(id, pad)], "L").len() as usize;
 		let mut guard = 0;
@@ -121,10 +133,7 @@ pub fn pad_len(id: u64) -> usize {
 	if repetitive(id) {
 		return 500_000;
 	}
-	if id % 1009 == 0 {
-		// 1 MiB: only assigned explicitly (thorough tier, a block with more than 64 MiB of tile data)
-		1 << 20
-	} else if id % 37 == 0 {
+	if id % 37 == 0 {
 		// stays above the 32 KiB chunk gap of the versatiles reader also when gzip-compressed
 		60_000
 	} else if id % 5 == 0 {
@@ -222,6 +231,11 @@ fn ident_raw(blob: &Blob, comp: TileCompression) -> Option<String> {
 		}
 		if raw.len() == 1 {
 			return Some((ONE_BYTE_BASE + raw.as_slice()[0] as u64).to_string());
+		}
+		// raster tiles of from_debug carry no ids
+		let r = raw.as_slice();
+		if r.starts_with(&[0x89, b'P', b'N', b'G']) || r.starts_with(&[0xFF, 0xD8]) || r.starts_with(b"RIFF") {
+			return Some(String::new());
 		}
 		let vt = VectorTile::from_blob(&raw).ok()?;
 		let mut layers: Vec<&VectorTileLayer> = vt.layers.iter().collect();
@@ -357,8 +371,41 @@ pub struct World {
 
 static WORLD_NO: std::sync::atomic::AtomicU64 = std::sync::atomic::AtomicU64::new(0);
 
+/// `kind` = `<base>[~<flip><swap>]`; base ∈ mem | versatiles | vtx (a versatiles file written by the
+/// INDEPENDENT encoder with seeded layout freedoms) | pmtiles | mbtiles | tar | dir; the suffix wraps the
+/// reader in `TilesConvertReader` with these flags
+pub fn base_kind(kind: &str) -> &str {
+	kind.split('~').next().unwrap()
+}
+pub fn conv_flags(kind: &str) -> Option<(bool, bool)> {
+	kind.split_once('~').map(|(_, f)| (&f[0..1] == "1", &f[1..2] == "1"))
+}
+/// the coordinate at which a converter with these flags serves the source tile `(z, x, y)`
+pub fn conv_coord(k: Key, flip: bool, swap: bool) -> Key {
+	let (z, mut x, mut y) = k;
+	if flip {
+		y = (((1u64 << z) - 1) as u32) - y;
+	}
+	if swap {
+		std::mem::swap(&mut x, &mut y);
+	}
+	(z, x, y)
+}
+pub fn wrap_conv(r: Box<dyn TilesReaderTrait>, kind: &str) -> Result<Box<dyn TilesReaderTrait>> {
+	match conv_flags(kind) {
+		None => Ok(r),
+		Some((flip, swap)) => {
+			let mut cp = TilesConverterParameters::new_default();
+			cp.flip_y = flip;
+			cp.swap_xy = swap;
+			Ok(Box::new(TilesConvertReader::new_from_reader(r, cp)?))
+		}
+	}
+}
+
 pub fn ext_of(kind: &str) -> &str {
-	match kind {
+	match base_kind(kind) {
+		"vtx" => ".versatiles",
 		"versatiles" => ".versatiles",
 		"pmtiles" => ".pmtiles",
 		"mbtiles" => ".mbtiles",
@@ -387,24 +434,54 @@ impl World {
 			let mut path = None;
 			let mut err = None;
 			let mut cover = show_cover(&mem.parameters.bbox_pyramid);
-			if s.kind != "mem" {
+			let bk = base_kind(&s.kind).to_string();
+			let kind_full = s.kind.clone();
+			if bk != "mem" || conv_flags(&s.kind).is_some() {
 				let p = dir.join(format!("s{i}{}", ext_of(&s.kind)));
-				if s.kind == "dir" {
+				if bk == "dir" {
 					std::fs::create_dir_all(&p).unwrap();
 				}
 				let ps = p.to_str().unwrap().to_string();
 				let mut m2 = mem.clone();
+				let m3 = mem.clone();
 				let r = catch(|| {
 					rt.block_on(async {
-						write_to_filename(&mut m2, &ps).await?;
-						let rd = get_reader(&ps).await?;
+						if bk == "vtx" {
+							// independent encoder: layout freedoms seeded by the tile set
+							use crate::indep_formats as ind;
+							let mut tm: ind::TileMap = BTreeMap::new();
+							let mut h: u64 = 1469598103934665603;
+							for (k, b) in m3.tiles.iter() {
+								tm.insert(*k, b.as_slice().to_vec());
+								h = (h ^ (k.1 as u64 * 31 + k.2 as u64 * 7 + k.0 as u64)).wrapping_mul(1099511628211);
+							}
+							let mut r = Rng::new(h);
+							let fmt = ind::Fmt::from_name(match s.fmt { 1 => "pbf", 2 => "png", 3 => "jpg", 4 => "webp", _ => "bin" }).unwrap();
+							let comp = [ind::Comp::None, ind::Comp::Gzip, ind::Comp::Brotli][s.comp as usize % 3];
+							let mut ch = ind::VtChoices::plain(fmt, comp);
+							ch.range_mode = r.below(3) as u8;
+							ch.empty_block = r.chance(1, 3);
+							ch.shuffle_blocks = r.chance(1, 2);
+							ch.shuffle_index = false;
+							ch.blob_order = r.below(4) as u8;
+							ch.share = r.chance(1, 2);
+							ch.max_gap = *r.pick(&[0usize, 0, 100, 40_000]);
+							let enc = ind::encode_versatiles(&tm, &ch, &mut r);
+							std::fs::write(&ps, &enc.bytes)?;
+						} else if bk != "mem" {
+							write_to_filename(&mut m2, &ps).await?;
+						}
+						let rd: Box<dyn TilesReaderTrait> = if bk == "mem" { Box::new(m3.clone()) } else { get_reader(&ps).await? };
+						let rd = wrap_conv(rd, &kind_full)?;
 						Ok::<String, anyhow::Error>(show_cover(&rd.get_parameters().bbox_pyramid))
 					})
 				});
 				match r {
 					Ok(Ok(c)) => {
 						cover = c;
-						path = Some(p);
+						if bk != "mem" {
+							path = Some(p);
+						}
 					}
 					Ok(Err(e)) => err = Some(format!("error: {e:#}")),
 					Err(m) => err = Some(format!("panic: {m}")),
@@ -426,8 +503,13 @@ impl World {
 				// a zero-length stored payload reads back as "no tile" from versatiles and pmtiles containers (open
 				// known finding C04-empty-tile-dropped, owned by C04): the model leaf is what the reader serves
 				let mut tiles = s.tiles.clone();
-				if s.comp == 0 && (s.kind == "versatiles" || s.kind == "pmtiles") {
+				let bk = base_kind(&s.kind);
+				if s.comp == 0 && (bk == "versatiles" || bk == "pmtiles" || bk == "vtx") {
 					tiles.retain(|_, v| *v != EMPTY_ID);
+				}
+				// a converter leaf serves the source tile of (z,x,y) at the transformed coordinate
+				if let Some((flip, swap)) = conv_flags(&s.kind) {
+					tiles = tiles.into_iter().map(|(k, v)| (conv_coord(k, flip, swap), v)).collect();
 				}
 				let mut e = format!("{};{};{};{};{}", s.fmt, s.comp, self.covers[i], show_tiles_spec(&tiles), s.kind);
 				if !s.fail.is_empty() {
@@ -447,6 +529,7 @@ impl World {
 			Some(p) => get_reader(p.to_str().unwrap()).await?,
 			None => Box::new(self.mem[i].clone()),
 		};
+		let r = wrap_conv(r, &self.specs[i].kind)?;
 		Ok(wrap_faulty(r, &self.specs[i].fail))
 	}
 	pub fn has_faults(&self) -> bool {
@@ -456,10 +539,12 @@ impl World {
 		let mem: Arc<Vec<MemSource>> = Arc::new(self.mem.clone());
 		let paths: Arc<Vec<Option<PathBuf>>> = Arc::new(self.paths.clone());
 		let fails: Arc<Vec<Vec<Key>>> = Arc::new(self.specs.iter().map(|s| s.fail.clone()).collect());
+		let kinds: Arc<Vec<String>> = Arc::new(self.specs.iter().map(|s| s.kind.clone()).collect());
 		let cb = Box::new(move |filename: String| -> BoxFuture<'static, Result<Box<dyn TilesReaderTrait>>> {
 			let mem = mem.clone();
 			let paths = paths.clone();
 			let fails = fails.clone();
+			let kinds = kinds.clone();
 			Box::pin(async move {
 				let base = Path::new(&filename).file_name().unwrap().to_str().unwrap().to_string();
 				let i: usize = base.trim_start_matches('s').parse()?;
@@ -474,6 +559,7 @@ impl World {
 					Some(p) => get_reader(p.to_str().unwrap()).await?,
 					None => Box::new(mem[i].clone()) as Box<dyn TilesReaderTrait>,
 				};
+				let r = wrap_conv(r, &kinds[i])?;
 				Ok(wrap_faulty(r, &fails[i]))
 			})
 		});
@@ -491,6 +577,18 @@ pub fn rpn_to_vpl(rpn: &str) -> Option<String> {
 		let (h, rest) = tok.split_at(1);
 		match h {
 			"L" => st.push(format!("from_container filename=\"s{rest}\"")),
+			"D" => {
+				let fast = rest.ends_with('f');
+				let code = rest.trim_end_matches('f');
+				let name = match code {
+					"1" => "pbf",
+					"2" => "png",
+					"3" => "jpg",
+					"4" => "webp",
+					_ => return None,
+				};
+				st.push(format!("from_debug format={name}{}", if fast { " fast=true" } else { "" }));
+			}
 			"U" => {
 				let p = st.pop()?;
 				st.push(format!(
@@ -646,6 +744,40 @@ pub fn eval_box_ex(rt: &tokio::runtime::Runtime, src: &Real, b: &TileBBox, allow
 		}
 	}
 	ev.n_lookup_hits = expect.len();
+	// the advertised coverage must contain everything that is delivered (by lookups and by the stream)
+	{
+		let pyr = &src.params().bbox_pyramid;
+		let mut outside: Option<(u32, u32, u8)> = expect.keys().find(|k| !pyr.contains_coord(&TileCoord3 { x: k.0, y: k.1, z: k.2 })).copied();
+		if outside.is_none() {
+			if let Ok(v) = &ev.stream {
+				outside = v.iter().map(|(c, _)| (c.x, c.y, c.z)).find(|k| !pyr.contains_coord(&TileCoord3 { x: k.0, y: k.1, z: k.2 }));
+			}
+		}
+		if let Some(k) = outside {
+			ev.failure = Some(("outside_advertised_coverage".into(), format!("a tile is delivered at {k:?} although parameters().bbox_pyramid does not contain it")));
+			return ev;
+		}
+	}
+	// the same source object streamed a second time delivers the same tiles (every 4th box)
+	if (b.x_min.wrapping_add(b.y_max).wrapping_add(b.level as u32)) % 4 == 0 {
+		if let Ok(v1) = &ev.stream {
+			let second = catch(|| rt.block_on(async { src.stream(b.clone()).await }));
+			let same = match &second {
+				Ok(v2) => {
+					let mut a: Vec<(u32, u32, u8, &[u8])> = v1.iter().map(|(c, b)| (c.x, c.y, c.z, b.as_slice())).collect();
+					let mut c: Vec<(u32, u32, u8, &[u8])> = v2.iter().map(|(c, b)| (c.x, c.y, c.z, b.as_slice())).collect();
+					a.sort();
+					c.sort();
+					a == c
+				}
+				Err(_) => false,
+			};
+			if !same {
+				ev.failure = Some(("second_stream_differs".into(), "streaming the same box a second time from the same source object gives a different result".to_string()));
+				return ev;
+			}
+		}
+	}
 	match &ev.stream {
 		Err(m) => ev.failure = Some(("stream_panic".into(), format!("stream panicked: {}", trunc(m, 160)))),
 		Ok(v) => {
@@ -727,7 +859,7 @@ pub fn run_line(rt: &tokio::runtime::Runtime, out: &mut Out, id: &mut Ident, scr
 
 pub fn sig_src(w: &World, rpn: &str) -> String {
 	// coarse description of what is under test: the operation letters and the leaf kinds
-	let ops: String = rpn.split(',').map(|t| &t[..1]).filter(|h| *h != "L").collect();
+	let ops: String = rpn.split(',').map(|t| &t[..1]).filter(|h| *h != "L").collect(); // D = from_debug
 	let mut kinds: Vec<&str> = w.specs.iter().map(|s| s.kind.as_str()).collect();
 	kinds.sort();
 	kinds.dedup();
@@ -735,6 +867,9 @@ pub fn sig_src(w: &World, rpn: &str) -> String {
 }
 
 pub fn run_in_world(rt: &tokio::runtime::Runtime, out: &mut Out, id: &mut Ident, w: &World, prop: &str, op: &str, rpn: &str, args: &str) {
+	if std::env::var("VTH_TRACE").is_ok() {
+		eprintln!("  run {prop} {op} {rpn} {}", trunc(args, 3000));
+	}
 	let env = w.env_string();
 	let line = if args.is_empty() { format!("{prop} {op} {rpn} {env}") } else { format!("{prop} {op} {rpn} {env} {args}") };
 	if !w.usable() {
@@ -779,6 +914,54 @@ pub fn run_in_world(rt: &tokio::runtime::Runtime, out: &mut Out, id: &mut Ident,
 				json!({"case": format!("{prop} X {rpn} {env} {bs}")}),
 			);
 		}
+		return;
+	}
+	// op "V": the same pipeline through the REAL `PipelineReader` (container/pipeline/reader.rs): the VPL text is
+	// written to a file next to the containers and opened with `get_reader`
+	if op == "V" {
+		if w.paths.iter().any(|p| p.is_none()) || w.has_faults() || w.specs.iter().any(|s| conv_flags(&s.kind).is_some()) {
+			return;
+		}
+		let mut vpl = match rpn_to_vpl(rpn) {
+			Some(v) => v,
+			None => return,
+		};
+		for (i, p) in w.paths.iter().enumerate() {
+			let name = p.as_ref().unwrap().file_name().unwrap().to_str().unwrap().to_string();
+			vpl = vpl.replace(&format!("filename=\"s{i}\""), &format!("filename=\"{name}\""));
+		}
+		let vp = w.dir.join("pipe.vpl");
+		std::fs::write(&vp, &vpl).unwrap();
+		let line_s = format!("{prop} S {rpn} {env} {args}");
+		let rd = match catch(|| rt.block_on(async { get_reader(vp.to_str().unwrap()).await })) {
+			Ok(Ok(r)) => r,
+			Ok(Err(_)) => {
+				out.case(&line_s, "err", true);
+				return;
+			}
+			Err(m) => {
+				out.case(&line_s, "panic", true);
+				out.oracle(false, &format!("{prop} PipelineReader open panicked: {}", trunc(&m, 120)), json!({"kind": "build_panic", "ops": sig_src(w, rpn), "via": "vpl-file"}), json!({"case": line_s, "vpl": vpl}));
+				return;
+			}
+		};
+		let src = Real::R(rd);
+		let comp = src.params().tile_compression;
+		let mut res = vec![];
+		for bs in args.split(';') {
+			let b = parse_box(bs);
+			let ev = eval_box(rt, &src, &b);
+			out.eval(&format!("{prop} V {rpn} {env} {bs}"), nontrivial_box(&b, &src.params().bbox_pyramid));
+			res.push(match &ev.stream {
+				Ok(v) => show_stream(id, comp, v),
+				Err(_) => "panic".to_string(),
+			});
+			let ok = ev.failure.is_none();
+			let (kind, text) = ev.failure.unwrap_or_default();
+			out.oracle(ok, &format!("{prop} PipelineReader stream vs lookups: {text}"), json!({"kind": kind, "ops": sig_src(w, rpn), "via": "vpl-file"}), json!({"case": format!("{prop} V {rpn} {env} {bs}"), "vpl": vpl}));
+		}
+		out.count("pipeline_reader_lines");
+		out.case(&line_s, &res.join("|"), true);
 		return;
 	}
 	let built = build_op(rt, w, rpn);
@@ -851,9 +1034,46 @@ pub fn run_in_world(rt: &tokio::runtime::Runtime, out: &mut Out, id: &mut Ident,
 				);
 			}
 			out.case(&line, &res.join("|"), any_nt);
+			// several of these boxes at once on the same operation object
+			let bx: Vec<TileBBox> = args.split(';').map(parse_box).filter(|b| !b.is_empty()).take(4).collect();
+			if bx.len() >= 2 && line.len() % 3 == 0 {
+				concurrent_streams(rt, out, &src, &bx, prop, &format!("{prop} S {rpn} {env} {}", boxes_arg(&bx)));
+			}
 		}
 		_ => {}
 	}
+}
+
+/// several streams on ONE source object at the same time must each equal the sequential result
+pub fn concurrent_streams(rt: &tokio::runtime::Runtime, out: &mut Out, src: &Real, boxes: &[TileBBox], prop: &str, case: &str) {
+	if boxes.len() < 2 {
+		return;
+	}
+	let norm = |v: &Vec<(TileCoord3, Blob)>| -> Vec<(u32, u32, u8, Vec<u8>)> {
+		let mut a: Vec<(u32, u32, u8, Vec<u8>)> = v.iter().map(|(c, b)| (c.x, c.y, c.z, b.as_slice().to_vec())).collect();
+		a.sort();
+		a
+	};
+	let seq = catch(|| rt.block_on(async {
+		let mut r = vec![];
+		for b in boxes {
+			r.push(src.stream(b.clone()).await);
+		}
+		r
+	}));
+	let con = catch(|| rt.block_on(async { futures::future::join_all(boxes.iter().map(|b| src.stream(b.clone()))).await }));
+	let ok = match (&seq, &con) {
+		(Ok(a), Ok(b)) => a.iter().map(norm).collect::<Vec<_>>() == b.iter().map(norm).collect::<Vec<_>>(),
+		_ => false,
+	};
+	out.eval(&format!("{prop} concurrent {case}"), true);
+	out.count("concurrent_stream_groups");
+	out.oracle(
+		ok,
+		&format!("{prop} concurrent streams: {} streams on one source object at the same time differ from the sequential results{}", boxes.len(), if con.is_err() { " (panic)" } else { "" }),
+		json!({"kind": "concurrent_streams_differ", "src": src.name()}),
+		json!({"case": case}),
+	);
 }
 
 /// `Value` helper for samples
@@ -1030,7 +1250,7 @@ pub fn levels_of(specs: &[SrcSpec]) -> BTreeMap<u8, Vec<(u32, u32)>> {
 
 fn next_id(next: &mut u64) -> u64 {
 	*next += 1;
-	while *next % 1009 == 0 || repetitive(*next) {
+	while *next % 1009 == 0 || repetitive(*next) || matches!(size_target(*next), Some(t) if t > 1001) {
 		*next += 1;
 	}
 	*next
@@ -1046,7 +1266,8 @@ pub fn next_id_where(next: &mut u64, pred: fn(u64) -> bool) -> u64 {
 fn next_id_with_target(next: &mut u64) -> u64 {
 	loop {
 		*next += 1;
-		if size_target(*next).is_some() {
+		// the small targets around the de-duplication threshold only (the 32 KiB / 1 MiB classes are assigned explicitly)
+		if matches!(size_target(*next), Some(t) if t <= 1001) {
 			return *next;
 		}
 	}
